@@ -219,6 +219,64 @@ def _reference_apply(source, sched):
     return out
 
 
+# rewrites given as line ranges whose new text differs from the old one in leading whitespace only (re-indentation), alone and together with a header that is
+# inserted or deleted in the same transaction: the squashed comparison above cannot see whether they were applied, the syntax tree can
+LAYOUT_SCENARIOS = [
+    ("dedent the body of a deleted else", "def f(x):\n    if x:\n        return 1\n    else:\n        y = 2\n        print(y)\n    return 3\n",
+     [(4, 4, ""), (5, 6, "    y = 2\n    print(y)\n")]),
+    ("indent statements under an inserted with header", "def g(lock, data):\n    lock.acquire()\n    data.append(1)\n    data.append(2)\n    return data\n",
+     [(3, 3, "    with lock:\n        data.append(1)\n"), (4, 4, "        data.append(2)\n")]),
+    ("re-indent continuation lines", "values = (\n    inner(1),\n    inner(2),\n)\nprint(values)\n", [(2, 3, "        inner(1),\n        inner(2),\n")]),
+    ("indent a statement into the block above", "for i in range(3):\n    a = i\nb = 2\nprint(a, b)\n", [(3, 3, "    b = 2\n")]),
+]
+
+
+def w_layout(arg):
+    from .. import hooks
+
+    m = hooks.mods()
+    proc, core = m["processing"], m["core"]
+    res = {"scenarios": 0, "applied_as_scheduled": 0, "violations": [], "nontrivial": []}
+    for name, source, edits in LAYOUT_SCENARIOS:
+        lines = source.splitlines(keepends=True)
+        starts = [0]
+        for ln in lines:
+            starts.append(starts[-1] + len(ln))
+        for tx in (7, None):
+            if tx is None and len(edits) > 1:
+                continue  # the edits only make sense together
+
+            def rule(src, edits=edits, tx=tx, source=source):
+                if src != source:
+                    return  # later passes see the rewritten text: nothing more to do
+                for first, last, new in edits:
+                    rng = core.Range(starts[first - 1], starts[last])
+                    yield (rng, new, tx) if tx is not None else (rng, new)
+
+            rule.__name__ = "layout_rule"
+            try:
+                out = proc.fix(rule)(source)
+            except Exception as exc:
+                res["violations"].append({"kind": "scheduler_raised", "input": source, "detail": {"scenario": name, "exc": repr(exc)}, "replay": {"fn": "harness.checks.c10:w_layout", "arg": None}})
+                continue
+            res["scenarios"] += 1
+            expected = source
+            for first, last, new in sorted(edits, reverse=True):
+                expected = expected[: starts[first - 1]] + new + expected[starts[last]:]
+            res["nontrivial"].append(env.digest(name + repr(tx)))
+            try:
+                same = ast.dump(ast.parse(out)) == ast.dump(ast.parse(expected))
+            except SyntaxError:
+                same = False
+            if same:
+                res["applied_as_scheduled"] += 1
+            else:
+                res["violations"].append({"kind": "scheduled_reindentation_not_applied", "input": source,
+                                          "detail": {"scenario": name, "transaction": tx, "expected": expected, "result": out, "result_is_input": out == source},
+                                          "replay": {"fn": "harness.checks.c10:w_layout", "arg": None}})
+    return res
+
+
 def w_real(batch):
     """format_code on real inputs with H-sched on; every pass of every real rule is checked."""
     from .. import hooks
@@ -377,6 +435,10 @@ def main() -> int:
         rs = p.map("harness.checks.c10:w_synth", batches(specs, 250), cpu_s=600)
         re_ = p.map("harness.checks.c10:w_synth", batches(ex_specs, 400), cpu_s=900)
         rr = p.map("harness.checks.c10:w_real", batches(real, 4), cpu_s=900)
+        rl = p.map("harness.checks.c10:w_layout", [None], cpu_s=300)
+    verdict.pool_failures(v, rl, "C10 layout scenarios")
+    lay = rl[0].get("value") if rl and rl[0].get("status") == "ok" else {}
+    v.extend((lay or {}).get("violations", []))
     tot_s, tot_e, tot_r = {}, {}, {}
     for replies, tot in ((rs, tot_s), (re_, tot_e), (rr, tot_r)):
         verdict.pool_failures(v, replies, "C10 batch")
@@ -402,6 +464,7 @@ def main() -> int:
         "synthetic_enumerated": {k: tot_e.get(k) for k in ("cases", "passes", "drops", "rollbacks", "model_agree", "model_disagree", "spliced_ok", "tx_total")},
         "enumerated_space": {"configurations_total": ex_total, "configurations_run": len(ex_specs), "exhaustive_for_bound": len(ex_specs) == ex_total},
         "real_rules": {k: tot_r.get(k) for k in ("cases", "passes", "passes_with_tx", "multi_tx", "drops", "rollbacks", "model_agree", "model_disagree", "crashed")},
+        "reindentation_scenarios": {k: (lay or {}).get(k) for k in ("scenarios", "applied_as_scheduled")},
         "exhaustive": False,
     }
     return v.finish(cov, assumptions=[
